@@ -24,7 +24,10 @@ Recognised (anything else raises - fail-closed):
 
   nipy/algorithms/fwhm.py, class Resels: the return expressions of resel2fwhm and fwhm2resel
   over np.sqrt, np.log, *, /, self.wedge, pos_recipr, np.power(., 1./self.D) (-> root) and
-  np.power(., self.D) (-> ^ D)                                -> src_resel2fwhm, src_fwhm2resel (over R)
+  np.power(., self.D) (-> ^ D)                                -> src_resel2fwhm, src_fwhm2resel (over R);
+  Resels.__init__: _transform = self.coordmap.affine; self.wedge = <expr over np.fabs, det(_transform),
+  np.power(., 1./self.D)>, det imported from numpy.linalg       -> src_wedge;
+  Resels.integrate: the five assignments and the return tuple (literal) -> src_integrate_is_masked_mean
 
 Expressions are translated with types: integers stay in Z, `/` goes to Q,
 np.floor/np.ceil come back to Z (Qfloor/Qceiling), `//` is Z.div.
@@ -128,6 +131,10 @@ def tr_real(n, var):
             return "(sqrt %s)" % tr_real(n.args[0], var)
         if ch == "np.log" and len(n.args) == 1:
             return "(ln %s)" % tr_real(n.args[0], var)
+        if ch == "np.fabs" and len(n.args) == 1:
+            return "(Rabs %s)" % tr_real(n.args[0], var)
+        if ch == "det" and len(n.args) == 1 and isinstance(n.args[0], ast.Name) and n.args[0].id == var:
+            return "v"
         if ch == "pos_recipr" and len(n.args) == 1:
             return "(pos_recipr %s)" % tr_real(n.args[0], var)
         if ch == "np.power" and len(n.args) == 2:
@@ -331,6 +338,29 @@ def translate(repo):
         if len(ret) != 1 or [a.arg for a in fn.args.args] != ["self", var]:
             raise Unsupported("Resels." + name)
         out.append("Definition src_%s (pos_recipr root : R -> R) (D : nat) (wedge v : R) : R := %s%%R." % (name, tr_real(ret[0].value, var)))
+    # Resels.__init__: wedge = |det(affine)| ** (1/D), det = numpy.linalg.det
+    imp = [n for n in ftree.body if isinstance(n, ast.ImportFrom) and n.module == "numpy.linalg"]
+    if not any(a.name == "det" and a.asname is None for n in imp for a in n.names):
+        raise Unsupported("fwhm.py: `from numpy.linalg import det` expected")
+    init = _func(ftree, "__init__", "Resels")
+    if ast.unparse(_assign_to(init, "_transform")) != "self.coordmap.affine":
+        raise Unsupported("Resels.__init__: _transform")
+    out.append("Definition src_wedge (pos_recipr root : R -> R) (D : nat) (wedge v : R) : R := %s%%R."
+               % tr_real(_assign_to(init, "self.wedge"), "_transform"))
+    # Resels.integrate: masked sum, voxel count, average converted to FWHM
+    ig = _func(ftree, "integrate", "Resels")
+    want = {"_resels": ["self.resels[:]", "(_resels * _mask).sum()"], "nvoxel": ["_mask.sum()", "_resels.size"],
+            "_fwhm": ["self.resel2fwhm(_resels / nvoxel)"]}
+    got = {}
+    for n in ast.walk(ig):
+        if isinstance(n, ast.Assign) and len(n.targets) == 1 and isinstance(n.targets[0], ast.Name) and n.targets[0].id in want:
+            got.setdefault(n.targets[0].id, []).append(ast.unparse(n.value))
+    if got != want:
+        raise Unsupported("Resels.integrate: %r" % got)
+    ret = [n for n in ig.body if isinstance(n, ast.Return)]
+    if len(ret) != 1 or ast.unparse(ret[0].value) != "(_resels, _fwhm, nvoxel)":
+        raise Unsupported("Resels.integrate return")
+    out.append("Definition src_integrate_is_masked_mean : bool := true.")
     meta["sources"] = [SRC, "nipy/algorithms/fwhm.py"]
     meta["definitions"] = sum(1 for l in out if l.startswith("Definition"))
     return "\n".join(out) + "\n", meta
